@@ -329,4 +329,70 @@ def r5(ctx, rep, fns):
                 rep.finding(R5, f'C14.R5/{case}', m.loc(LEX, call), 'metacall.call',
                             f'{case}: returns {r!r}, expected {want!r}' + ('' if stored_ok else '; the new item is not stored under its spec key and its ident')
                             + (f' (while it returns {outcomes.get("cached")!r} when cached)' if state != 'cached' and 'cached' in outcomes else ''))
+    # specs that are merely *equal* to a cached spec (1.0 == 1, same hash): the constructor refuses a non-int coordinate
+    # (CoordsItem.__new__ folded below), so the outcome must be that refusal whether or not the int spec is cached
+    cnew = m.func(LEX, 'CoordsItem.__new__')
+    rep.consult(m.loc(LEX, cnew) + ' CoordsItem.__new__')
+
+    class InstCheckError(TypeError):
+        pass
+
+    def inst_check(v, t):
+        if not isinstance(v, t):
+            raise InstCheckError(f'expected {t.__name__}, got {type(v).__name__}')
+        return v
+    import collections as _c
+    BiC = _c.namedtuple('BiCoords', 'index subscript')
+    BiC.sorting = lambda s_: (s_.subscript, s_.index)
+    itn = Interp(dict(object=Obj('object', __new__=lambda c: Obj('item', Coords=BiC, TYPE=Obj('TYPE', maxi=3, rank=20)), __setattr__=setattr),
+                      check=Obj('check', inst=inst_check), ValueError=ValueError, TypeError=TypeError, AttributeError=AttributeError, zip=zip),
+                 where='lang/lex.py CoordsItem.__new__')
+    refuses_nonint = {}
+    for bad in (1.0, 2 + 0j):
+        try:
+            itn.call(cnew, [Obj('cls'), bad, 2])
+            refuses_nonint[bad] = False
+        except TypeError:
+            refuses_nonint[bad] = True
+        except (Raised, ValueError, AttributeError) as e:
+            raise AnalysisError(f'CoordsItem.__new__ does not fold on a non-int coordinate: {getattr(e, "text", e)}')
+    try:
+        okint = itn.call(cnew, [Obj('cls'), 1, 2])
+    except (Raised, TypeError, ValueError, AttributeError) as e:
+        raise AnalysisError(f'CoordsItem.__new__ does not fold on int coordinates: {getattr(e, "text", e)}')
+    if all(refuses_nonint.values()):
+        for cls, spec, canon in ((ConstantC, (1.0, 2), (1, 2)), (ConstantC, ((1.0, 2),), ((1, 2),)), (PredicateC, ((0.0, 0, 1),), ((0, 0, 1),)), (ConstantC, (1 + 0j, 2), (1, 2))):
+            outcomes = {}
+            for state in ('never cached', 'the equal int spec cached'):
+                cache = {}
+                if state != 'never cached':
+                    w_ = Item(cls.__name__, canon)
+                    cache[cls.__name__, canon] = w_
+                    cache[w_.ident] = w_
+
+                def construct2(c, *sp):
+                    leaves = sp[0] if len(sp) == 1 and isinstance(sp[0], tuple) else sp
+                    if any(not isinstance(x, int) for x in leaves):
+                        raise TypeError('non-int coordinate')
+                    return construct(c, *sp)
+                it = Interp(dict(cache=cache, supercall=construct2, Predicate=PredicateC, LexType=LexTypeM(), LexicalAbc=LexicalAbcC,
+                                 abcs=Obj('abcs', isabstract=lambda c: c.abstract), isinstance=lambda o, t: (isinstance(o, Item) and t in (PredicateC, ConstantC, LexicalAbcC) and (t is LexicalAbcC or o.clsname == t.__name__)) if isinstance(t, Cls) else isinstance(o, t),
+                                 issubclass=lambda a, b: b is LexicalAbcC or a is b, TypeError=TypeError, KeyError=KeyError, ValueError=ValueError, tuple=tuple, int=int, str=str, len=len),
+                            where='lang/lex.py metacall.call')
+                try:
+                    r = it.call(call, [cls, *spec])
+                    outcomes[state] = f'returns {r!r}'
+                except TypeError:
+                    outcomes[state] = 'raises TypeError'
+                except Raised as e:
+                    outcomes[state] = f'raises {e.text}'
+                except (KeyError, ValueError, AttributeError) as e:
+                    outcomes[state] = f'raises {type(e).__name__}'
+            n += 1
+            ok = len(set(outcomes.values())) == 1
+            case = f'{cls}{spec} (equal to the int spec {canon})'
+            rep.instance(R5, ok=ok, nontrivial=case)
+            if not ok:
+                rep.finding(R5, f'C14.R5/non-int spec/{cls}{spec}', m.loc(LEX, call), 'metacall.call',
+                            f'{case}: ' + '; '.join(f'{k}: {v}' for k, v in outcomes.items()) + ' -- whether the call is refused depends on what was constructed earlier')
     rep.floor('C14.R5', 'construction calls', n, 24)
